@@ -13,7 +13,7 @@ pub fn def() -> CheckDef {
         bounds_quick: "associativity: triples W<=2,X<=1,S,T<=1,interfaces<=1 (+ corner triples with interfaces 2); identity laws W<=2,X<=1,S,T<=2,interfaces<=2; interchange: quadruples W<=1,X<=1,interfaces<=1; twist naturality: pairs W<=2,X<=1,interfaces<=1..2; self-inverse and hexagons: object lists of length <=2 each; seed-sampled under the budget after the mandatory corners",
         bounds_thorough: "W<=2,X<=2 everywhere, pairs W<=3, object lists <=3",
         jobs,
-        budget_s: (170, 3000),
+        budget_s: (170, 1500),
     }
 }
 
@@ -78,7 +78,7 @@ fn gen_chain(shs: Vec<Shape>) -> impl Fn() -> PV + Send + Sync {
 pub fn jobs(tier: Tier, seed: u64) -> Vec<Job> {
     let per_job = Duration::from_secs(match tier {
         Tier::Quick => 60,
-        Tier::Thorough => 900,
+        Tier::Thorough => 600,
     });
     let cfg = base_cfg(tier);
     let mut groups: Vec<Vec<(bool, Case)>> = vec![];
